@@ -92,7 +92,7 @@ func isNameByte(c byte) bool {
 func TestVerifBoundedTokenizer(t *testing.T) {
 	n := verifBound(5, 7)
 	env := map[string]string{"a": "x y", "b": "$a'q"}
-	tokens := []string{"w", " ", "\t", "'", "''", "$a", "${b}", "#", "\r", "-", "\u00e0"}
+	tokens := []string{"w", " ", "\t", "'", "''", "$a", "${b}", "#", "\r", "-", "\u00e0", "\f", "\u00a0"}
 	cases, nontrivial, fails := 0, 0, 0
 	first := ""
 	var rec func(k int, cur string)
